@@ -453,6 +453,11 @@ partial def nodeOfJson (j : Json) : Interp.Node :=
   else .eq id (getStr j "op") (nodeOfJson ((j.getObjVal? "l").toOption.getD Json.null))
         (nodeOfJson ((j.getObjVal? "r").toOption.getD Json.null))
 
+def kvOfJson (j : Json) (k : String) : List (Val.Value × Val.Value) :=
+  match valueOfJson ((j.getObjVal? k).toOption.getD Json.null) with
+  | .dict kv => kv
+  | _ => []
+
 def opInterp (j : Json) : Json :=
   match parseScanText (getStr j "scan") with
   | .error e => Json.mkObj [("error", toJson e)]
@@ -467,7 +472,7 @@ def opInterp (j : Json) : Json :=
         let d := Run.trackData acc.1 r acc.2.1 acc.2.2
         (acc.1 + 1, d.1, d.2)) (0, 0, 0)).2.1
     let ms : Interp.MState := { prog := prog, headers := headers, dm := getBool j "and" true, scan := scan,
-                                dataEndCount := dataEnd, vars := [] }
+                                dataEndCount := dataEnd, vars := [], pmeta := kvOfJson j "metadata", pstatic := kvOfJson j "static" }
     let st0 : Run.LoopSt Interp.MState := { ms := ms }
     let method := getStr j "method"
     let (lines, st, acc) :=
@@ -483,11 +488,6 @@ def opInterp (j : Json) : Json :=
 /-! op `print`: a print string and the data a run holds at that moment → what print sends out.
     op `printspec`: chunks → the print string as written, whether C16's theorem covers it, and
     the text that must come out given the values of the references -/
-def kvOfJson (j : Json) (k : String) : List (Val.Value × Val.Value) :=
-  match valueOfJson ((j.getObjVal? k).toOption.getD Json.null) with
-  | .dict kv => kv
-  | _ => []
-
 def opPrint (j : Json) : Json :=
   let env : Print.PEnv := { vars := kvOfJson j "vars", headers := strList j "headers", line := strList j "line",
                             metadata := kvOfJson j "metadata", fields := kvOfJson j "fields" }
